@@ -1,6 +1,6 @@
 (* Proofs/TypingSound.v -- statements: the visitor accepts exactly the well-typed programs, for
    every nesting, on the part of a program whose statement kinds have correct dispatch rows. *)
-From TV Require Import Base.I32 Model.Ops Model.Expr Model.Typing Spec.TypingRules Proofs.TypingExpr.
+From TV Require Import Base.I32 Model.Ops Model.Expr Model.TypeCheck Spec.TypingRules Proofs.TypingExpr.
 Open Scope Z_scope.
 
 (* ---- induction principle for stmt (nested lists) ---- *)
